@@ -143,7 +143,68 @@ theorem block_from_zero (l : Dims) (ds : List Dims) (r : Raw) (hr : r.length = r
   intro k hk
   rw [(block_consumed_eq_sum l ds r hr).1 k hk, hz k hk, Nat.zero_add]
 
+/-- **C12, verified blocks** (`Processor.executeTxs`, abort on the first failing `Consume`).
+For a manager of the right size whose consumption is within the maximum `l` (it is 0 after
+`ComputeNext`):
+
+1. if the block is accepted, every transaction's `Units` succeeded, the recorded consumption
+   is the start value plus the exact sum of **all** the block's transactions' units, it is
+   within `l` in every dimension, and nothing but the consumption words changed;
+2. a block whose transactions all have units is accepted **iff** in every dimension the
+   start value plus the exact sum of all units is `≤ l`; in particular a block exceeding the
+   maximum is rejected;
+3. and that rejection is `ErrInvalidUnitsConsumed` for some dimension. -/
+theorem processor_consumed_eq_sum_and_le_max (l : Dims) (r : Raw) (hr : r.length = rawWords)
+    (hl : ∀ k, k < feeDimensions → dget l k < two64)
+    (h0 : ∀ k, k < feeDimensions → lastConsumed r k ≤ dget l k) :
+    (∀ us r', processTxs l r us = .ok r' →
+      ∃ ds, us = ds.map Except.ok ∧
+        (∀ k, k < feeDimensions → lastConsumed r' k = lastConsumed r k + sumDims ds k) ∧
+        (∀ k, k < feeDimensions → lastConsumed r' k ≤ dget l k) ∧
+        (∀ j, (∀ k, k < feeDimensions → j ≠ consumedIdx k) → getWord r' j = getWord r j)) ∧
+    (∀ ds : List Dims, (∃ r', processTxs l r (ds.map Except.ok) = .ok r') ↔
+      ∀ k, k < feeDimensions → lastConsumed r k + sumDims ds k ≤ dget l k) ∧
+    (∀ (ds : List Dims) e, processTxs l r (ds.map Except.ok) = .error e →
+      ∃ i, i < feeDimensions ∧ e = .tooLarge i) := by
+  refine ⟨?_, ?_, ?_⟩
+  · intro us r' h
+    obtain ⟨ds, h1, _, h3, h4, h5⟩ := processTxs_ok l us r r' hr h
+    exact ⟨ds, h1, h3, h4 h0, h5⟩
+  · intro ds; exact (processTxs_accepts_iff l ds r hr hl h0).1
+  · intro ds; exact (processTxs_accepts_iff l ds r hr hl h0).2
+
+/-- a failing `Units` of some transaction rejects the block with that error, unless an earlier
+transaction already exceeded the maximum -/
+theorem processor_units_error (l : Dims) (r : Raw) (e : UnitsErr)
+    (rest : List (Except UnitsErr Dims)) :
+    processTxs l r (.error e :: rest) = .error (.units e) := rfl
+
+/-- **C12, built blocks** (`Builder.BuildBlock`'s metering: skip a transaction that does not
+fit, stop once the failing dimension has reached the target): the recorded consumption is the
+start value plus the exact sum of the units of the **included** transactions, stays within
+the maximum, and nothing else in the manager changes — whatever the target is. -/
+theorem builder_consumed_eq_sum_and_le_max (l target : Dims) (ds : List Dims) (r : Raw)
+    (hr : r.length = rawWords) :
+    (buildAll l target r ds).2.length = ds.length ∧
+    (∀ k, k < feeDimensions →
+      lastConsumed (buildAll l target r ds).1 k
+        = lastConsumed r k + acceptedSum ds (buildAll l target r ds).2 k) ∧
+    ((∀ k, k < feeDimensions → lastConsumed r k ≤ dget l k) →
+      ∀ k, k < feeDimensions → lastConsumed (buildAll l target r ds).1 k ≤ dget l k) ∧
+    (∀ j, (∀ k, k < feeDimensions → j ≠ consumedIdx k) →
+      getWord (buildAll l target r ds).1 j = getWord r j) :=
+  (buildAll_spec l target ds r hr).2
+
 /-! non-vacuity -/
+example : (match processTxs [2, 2, 2, 2, 2] emptyRaw [.ok [1, 1, 1, 1, 1], .ok [1, 1, 1, 1, 2]] with
+    | .ok _ => none | .error e => some e) = some (.tooLarge 4) := by decide
+example : (match processTxs [2, 2, 2, 2, 2] emptyRaw [.ok [1, 1, 1, 1, 1], .ok [1, 1, 1, 1, 1]] with
+    | .ok r => unitsConsumed r | .error _ => []) = [2, 2, 2, 2, 2] := by decide
+example : (buildAll [2, 2, 2, 2, 2] [9, 9, 9, 9, 9] emptyRaw [[1, 1, 1, 1, 1], [0, 0, 0, 0, 2], [1, 0, 0, 0, 0]]).2
+    = [true, false, true] := by decide
+example : (buildAll [2, 2, 2, 2, 2] [9, 9, 9, 9, 1] emptyRaw [[1, 1, 1, 1, 1], [0, 0, 0, 0, 2], [1, 0, 0, 0, 0]]).2
+    = [true, false, false] := by decide
+
 def errOf (e : Except UnitsErr Dims) : Option UnitsErr :=
   match e with
   | .error x => some x
